@@ -36,6 +36,9 @@ func init() {
 	generators["blindrelease"] = genBlindRelease
 	generators["refusedthen"] = genRefusedThen
 	generators["fastbeat"] = genFastBeat
+	generators["slowbeat"] = genSlowBeat
+	generators["latepromote"] = genLatePromote
+	generators["negprio"] = genNegPrio
 	generators["twoinflight"] = genTwoInFlight
 	generators["outage"] = genOutage
 	generators["slowdemote"] = genSlowDemote
@@ -1542,7 +1545,7 @@ func genPrioSucc(r rng, k int) *Spec {
 // stale result must not count towards the new term's threshold.
 // ---------------------------------------------------------------------------
 
-var hlEnds = []string{"ordemote", "forge", "restart", "restartctx", "outdel"}
+var hlEnds = []string{"ordemote", "forge", "restart", "restartctx", "outdel", "takeover"}
 
 // HealthLeakTotal is the size of the enumeration.
 func HealthLeakTotal() int { return len(hlEnds) * 4 * 3 }
@@ -1559,6 +1562,9 @@ func genHealthLeak(r rng, k int) *Spec {
 	s.Insts = mkInsts(1, 1, h)
 	j := 1 + r.IntN(4)
 	slow := r.pickS("s", "s", "S")
+	if end == "takeover" {
+		slow = "S" // slow but healthy: the tick that waited for it goes on towards its refresh
+	}
 	s.Insts[0].Health = strings.Repeat("h", j) + slow + strings.Repeat("u", m-1) + strings.Repeat("h", 60)
 	s.Insts[0].HealthOn = true
 	s.Insts[0].MaxFail = m
@@ -1566,6 +1572,23 @@ func genHealthLeak(r rng, k int) *Spec {
 	s.Breaks = []BreakSpec{{Name: "hc", Client: "i0", Op: "health:" + slow, Nth: 1, Phase: "check", Armed: true}}
 	s.Actions = append(s.Actions, Action{At: 10 * ms, Kind: "start", Inst: "i0"},
 		Action{At: 20 * ms, Kind: "waitbreak", Break: "hc", D: 30 * sec})
+	if end == "takeover" {
+		// the term is ended by a real preemption while the check is out; the check stays out
+		// until the old leader has seen the preemptor's record and a few of its refreshes; its
+		// result - healthy or not - arrives in a term that is over: the tick that waited for it
+		// must not go on to refresh anything
+		s.NoPreempt = false
+		s.Insts = append(s.Insts, InstSpec{Name: "i1", Group: "g0", H: h, Priority: 3, Takeover: true})
+		s.Insts[0].Priority = 1
+		// (a leader that acquired the key from Start runs no watch: it learns of the preemption
+		// from a validation, turns follower, and its watch then follows the preemptor's record)
+		s.Actions = append(s.Actions, Action{After: time.Nanosecond, Kind: "start", Inst: "i1"},
+			Action{After: h, Kind: "validate", Inst: "i0", Val: "bg", OrDemote: true},
+			Action{After: 2*h + 200*ms + hold, Kind: "release", Break: "hc"})
+		s.Duration = s.TTL + time.Duration(m+8)*h + 2*sec
+		s.Sample = sampleFor(h)
+		return s
+	}
 	switch end {
 	case "ordemote":
 		s.Actions = append(s.Actions,
@@ -2499,10 +2522,20 @@ func genChainTakeover(r rng, k int) *Spec {
 // ---------------------------------------------------------------------------
 
 func genFastBeat(r rng, k int) *Spec {
-	h := []time.Duration{10 * ms, 20 * ms, 33 * ms, 50 * ms, 75 * ms}[k%5]
+	return genBeat(r, k, []time.Duration{10 * ms, 20 * ms, 33 * ms, 50 * ms, 75 * ms}, "fastbeat")
+}
+
+// slowbeat: the same at the slow end - heartbeat intervals of 5-60 s (leases of 15 s to 10 min):
+// nothing may be capped by a constant that ignores the configured interval either.
+func genSlowBeat(r rng, k int) *Spec {
+	return genBeat(r, k, []time.Duration{5 * sec, 10 * sec, 20 * sec, 30 * sec, 60 * sec}, "slowbeat")
+}
+
+func genBeat(r rng, k int, hs []time.Duration, tag string) *Spec {
+	h := hs[k%5]
 	ratio := []int{3, 3, 4, 5, 10}[(k/5)%5]
 	n := 1 + r.IntN(3)
-	s := &Spec{Benign: true, NoPreempt: true, TTL: time.Duration(ratio) * h, Tags: []string{"fastbeat"}}
+	s := &Spec{Benign: true, NoPreempt: true, TTL: time.Duration(ratio) * h, Tags: []string{tag}}
 	s.Insts = mkInsts(n, 1, h)
 	if k%3 == 2 {
 		// instance ids are free text: ids that need escaping in JSON, ids that differ only in
@@ -2527,6 +2560,9 @@ func genFastBeat(r rng, k int) *Spec {
 	}
 	s.Watch = WatchPolicy{DelayMax: r.pickD(0, h/2, 50*ms), DropP: r.pickF(0, 0, 0.3)}
 	T := 3 * sec
+	if 30*h > T {
+		T = 30 * h
+	}
 	for i := 0; i < n; i++ {
 		s.Actions = append(s.Actions, Action{At: r.dur(0, 500*ms), Kind: "start", Inst: s.Insts[i].Name})
 	}
@@ -2546,9 +2582,102 @@ func genFastBeat(r rng, k int) *Spec {
 		s.Actions = append(s.Actions, a)
 	}
 	if r.chance(0.5) {
+		// preemption-sized delays at the in-library windows (they do not grow with the interval:
+		// a goroutine descheduled for seconds would outlast Stop's own 5 s wait)
 		s.YieldP, s.YieldMax = 0.3, h/8
+		if s.YieldMax > 250*ms {
+			s.YieldMax = 250 * ms
+		}
 	}
 	s.Duration = 2 * sec
+	if 12*h > s.Duration {
+		s.Duration = 12 * h
+	}
+	s.Sample = sampleFor(h)
+	if h >= 5*sec {
+		s.Sample = h / 4
+	}
+	return s
+}
+
+// ---------------------------------------------------------------------------
+// latepromote: the goroutine that delivers a term's OnPromote is scheduled very late (parked
+// at its entry): meanwhile the term ends by a demotion and the same instance wins the key
+// again - a new term is running when the old term's OnPromote is finally delivered. The
+// context it is handed belongs to the old term: it is already done.
+// ---------------------------------------------------------------------------
+
+// LatePromoteTotal is the size of the enumeration.
+func LatePromoteTotal() int { return 2 * 2 * 2 }
+
+func genLatePromote(r rng, k int) *Spec {
+	idx := k % LatePromoteTotal()
+	end := []string{"forge", "ordemote"}[idx%2]
+	idx /= 2
+	h := []time.Duration{200 * ms, 500 * ms}[idx%2]
+	idx /= 2
+	two := idx%2 == 1
+	s := &Spec{TTL: 3 * h, NoPreempt: true, Tags: []string{"latepromote", end}}
+	s.Lat = Latency{Max: r.pickD(0, 2*ms)}
+	n := 1
+	if two {
+		n = 2
+	}
+	s.Insts = mkInsts(n, 1, h)
+	s.Insts[0].BlockPromote = true
+	s.Breaks = []BreakSpec{{Name: "pg", Client: "*", Op: "yield:promoteGoroutineEntry", Nth: 1, Phase: "site", Armed: true}}
+	s.Actions = append(s.Actions, Action{At: 10 * ms, Kind: "start", Inst: "i0"},
+		Action{After: ms, Kind: "waitbreak", Break: "pg", D: 3 * sec})
+	switch end {
+	case "forge":
+		s.Actions = append(s.Actions, Action{After: 2 * h, Kind: "output", Inst: "g0", Val: `{"id":"intruder","token":"x"}`},
+			Action{After: 2 * h, Kind: "outdel", Inst: "g0"})
+	default:
+		s.Actions = append(s.Actions,
+			Action{After: 2 * h, Kind: "rule", Rule: &FaultRule{Client: "i0", Op: "Get", ToOrd: 1, Kind: "err", Err: "timeout"}},
+			Action{After: time.Nanosecond, Kind: "validate", Inst: "i0", Val: "bg", OrDemote: true},
+			Action{After: h, Kind: "outdel", Inst: "g0"})
+	}
+	if two {
+		// a second instance joins only after the first has had time to win the key again
+		s.Actions = append(s.Actions, Action{After: 1200 * ms, Kind: "start", Inst: "i1"})
+	}
+	s.Actions = append(s.Actions, Action{After: 1500 * ms, Kind: "release", Break: "pg"})
+	s.Duration = 6 * h
+	s.Sample = sampleFor(h)
+	return s
+}
+
+// ---------------------------------------------------------------------------
+// negprio: an incumbent with a NEGATIVE priority (valid: priorities are plain integers, and a
+// negative one is written into the record) and takeover disabled; a challenger with takeover
+// disabled (priority 0, positive, equal, lower) never replaces its record - 0 and "disabled"
+// are not the same thing as "outranks a negative number" - and a takeover-enabled one with a
+// positive priority does so within 3 H.
+// ---------------------------------------------------------------------------
+
+// NegPrioTotal is the size of the enumeration.
+func NegPrioTotal() int { return 2 * 6 * 2 }
+
+func genNegPrio(r rng, k int) *Spec {
+	idx := k % NegPrioTotal()
+	inc := []int{-1, -5}[idx%2]
+	idx /= 2
+	ch := []struct {
+		p int
+		t bool
+	}{{0, false}, {7, false}, {inc, false}, {inc - 2, false}, {7, true}, {1, true}}[idx%6]
+	idx /= 6
+	h := []time.Duration{200 * ms, 500 * ms}[idx%2]
+	s := &Spec{TTL: 3 * h, Prompt: true, Tags: []string{"priority", "negprio"}}
+	s.Lat = Latency{Min: 0, Max: h / 20}
+	s.Watch = WatchPolicy{DelayMax: r.pickD(0, h/10)}
+	s.Insts = mkInsts(2, 1, h)
+	s.Insts[0].Priority = inc
+	s.Insts[1].Priority, s.Insts[1].Takeover = ch.p, ch.t
+	s.Actions = append(s.Actions, Action{At: 10 * ms, Kind: "start", Inst: "i0"},
+		Action{At: 10*ms + 2*h + r.dur(0, h), Kind: "start", Inst: "i1"})
+	s.Duration = 12 * h
 	s.Sample = sampleFor(h)
 	return s
 }
@@ -2679,14 +2808,17 @@ func genBlindRelease(r rng, k int) *Spec {
 // ---------------------------------------------------------------------------
 
 // CtxCancelTotal is the size of the enumeration.
-func CtxCancelTotal() int { return 3 * 4 * 2 }
+func CtxCancelTotal() int { return 3 * 6 * 2 }
 
 func genCtxCancel(r rng, k int) *Spec {
 	idx := k % CtxCancelTotal()
 	gap := []time.Duration{0, 5 * ms, 300 * ms}[idx%3]
 	idx /= 3
-	sv := []StopVariant{{Plain: true}, {DeleteKey: true, Wait: true, Timeout: 5 * sec}, {DeleteKey: false, Timeout: 5 * sec}, {DeleteKey: true, Wait: true, CtxKind: "deadline", CtxD: 2 * sec}}[idx%4]
-	idx /= 4
+	// what follows the end of the context: a stop call (4 variants), another Start on the same
+	// object without any stop call, or nothing at all for longer than a TTL
+	follow := idx % 6
+	sv := []StopVariant{{Plain: true}, {DeleteKey: true, Wait: true, Timeout: 5 * sec}, {DeleteKey: false, Timeout: 5 * sec}, {DeleteKey: true, Wait: true, CtxKind: "deadline", CtxD: 2 * sec}, {}, {}}[follow]
+	idx /= 6
 	leader := idx%2 == 0
 	h := r.pickD(500*ms, 1*sec)
 	s := &Spec{TTL: 5 * h, NoPreempt: true, Tags: []string{"lifecycle", "ctxcancel"}}
@@ -2700,13 +2832,27 @@ func genCtxCancel(r rng, k int) *Spec {
 	s.Inst(x).BlockPromote = r.chance(0.5)
 	s.Actions = append(s.Actions, Action{At: 10 * ms, Kind: "start", Inst: "i0"}, Action{At: 300 * ms, Kind: "start", Inst: "i1"},
 		Action{At: 2 * sec, Kind: "cancelstart", Inst: x})
-	if gap == 0 {
-		s.Actions = append(s.Actions, Action{Chain: true, Kind: "stop", Inst: x, Stop: &sv})
-	} else {
-		s.Actions = append(s.Actions, Action{After: gap, Kind: "stop", Inst: x, Stop: &sv})
+	switch follow {
+	case 4:
+		s.Tags = append(s.Tags, "start-again")
+		if gap == 0 {
+			s.Actions = append(s.Actions, Action{Chain: true, Kind: "start", Inst: x})
+		} else {
+			s.Actions = append(s.Actions, Action{After: gap, Kind: "start", Inst: x})
+		}
+		s.Duration = s.TTL + 4*h
+	case 5:
+		s.Tags = append(s.Tags, "nothing-follows")
+		s.Duration = s.TTL + 4*h
+	default:
+		if gap == 0 {
+			s.Actions = append(s.Actions, Action{Chain: true, Kind: "stop", Inst: x, Stop: &sv})
+		} else {
+			s.Actions = append(s.Actions, Action{After: gap, Kind: "stop", Inst: x, Stop: &sv})
+		}
+		s.Duration = 2 * h
 	}
 	s.Actions = append(s.Actions, Action{After: ms, Kind: "waitapi", Inst: x, D: 8 * sec})
-	s.Duration = 2 * h
 	s.Sample = sampleFor(h)
 	return s
 }
